@@ -35,6 +35,22 @@ def generate():
         append='#[path = "../h_put.rs"]\npub mod harness;\n',
         require=["async fn payment_for_us_exists_and_is_still_valid", "async fn validate_key_and_existence",
                  "pub(crate) async fn store_replicated_in_record", "pub(crate) async fn validate_and_store_scratchpad_record"]))
+    # client read paths (C15): items of autonomi
+    a, m1 = extract_items("autonomi/src/client/data/public.rs", [("fn", "chunk_get")])
+    b, m2 = extract_items("autonomi/src/client/vault.rs", [("enum", "VaultError"), ("fn", "get_vault_from_network")])
+    c, m3 = extract_items("autonomi/src/client/data/mod.rs", [("enum", "GetError")])
+    meta += [m1, m2, m3]
+    b_enum, b_fn = b.split("\n\n", 1) if "async fn get_vault_from_network" not in b.split("\n\n", 1)[0] else ("", b)
+    subs = [("                    u64::MAX\n", "                    crate::shim::Counter::max_value()\n", 1)]
+    b_fn = apply_subs(b_fn, subs, "autonomi/src/client/vault.rs")
+    text = ("// GENERATED from autonomi/src/client/{data/public.rs,data/mod.rs,vault.rs} items -- do not edit\n"
+            "use crate::shim::ant_networking::{GetRecordCfg, GetRecordError, NetworkError};\n"
+            "use crate::shim::ant_protocol::storage::{try_deserialize_record, Chunk, ChunkAddress, RecordHeader, RecordKind, Scratchpad, ScratchpadAddress};\n"
+            "use crate::shim::ant_protocol::NetworkAddress;\nuse crate::shim::client::{Client, ChunkAddr, VaultSecretKey};\n"
+            "use libp2p::kad::Quorum;\nuse std::collections::HashSet;\nuse xor_name::XorName;\n\n"
+            + c + "\n\n" + b_enum + "\n\nimpl Client {\n" + a + "\n\n" + b_fn + "\n}\n\n#[path = \"../h_client.rs\"]\npub mod harness;\n")
+    text = text.replace("crate::self_encryption::Error", "crate::shim::client::SelfEncryptionError")
+    write_if_changed(f"{DST}/client_items.rs", text)
     return {"transplanted": meta}
 
 
